@@ -175,15 +175,15 @@ func (c *Ctx) Violate(property, monitor, format string, args ...interface{}) {
 }
 
 type statsFile struct {
-	Engine      string           `json:"engine"`
-	Seed        int64            `json:"seed"`
-	Tier        string           `json:"tier"`
-	Cases       int              `json:"cases"`
-	Ops         int              `json:"ops"`
-	DistinctNT  int              `json:"distinct_nontrivial"`
-	Stats       map[string]int64 `json:"stats"`
-	Samples     []string         `json:"samples"`
-	Violations  []Violation      `json:"violations"`
+	Engine     string           `json:"engine"`
+	Seed       int64            `json:"seed"`
+	Tier       string           `json:"tier"`
+	Cases      int              `json:"cases"`
+	Ops        int              `json:"ops"`
+	DistinctNT int              `json:"distinct_nontrivial"`
+	Stats      map[string]int64 `json:"stats"`
+	Samples    []string         `json:"samples"`
+	Violations []Violation      `json:"violations"`
 }
 
 // Close flushes the streams and writes <engine>.stats.json.
